@@ -28,5 +28,14 @@ CHECKS = {
         note="Trusts Fraction/bigint arithmetic; 'unparsable' restricted to texts no CEL implementation accepts; uint(d) for -1<d<0 not asserted.",
         design_ref="DESIGN.md §4 C10",
     ),
+    "C07": dict(
+        technique="property-based testing (Hypothesis): literal round trip evaluate(spell(v)) == v over generated values x spellings",
+        category="exploration",
+        text="Generated strings/bytes (all Unicode, invalid UTF-8, quotes, backslashes) x every quoting style and per-character escape choice, "
+             "int/uint in decimal/hex with sign and leading zeros incl. out-of-range neighbours, decimal float texts against a Fraction-rounded "
+             "oracle; both runners.",
+        note="Spellings outside the statement's list are not generated (\\u in bytes, surrogates, raw CR, raw literal with backslash before a quote).",
+        design_ref="DESIGN.md §4 C07",
+    ),
 }
 NOT_APPLICABLE = {}
